@@ -32,7 +32,7 @@ ASSUMPTIONS = [
 
 
 def budget(tier):
-    return {"examples": 600 if tier == "quick" else 8000}
+    return {"examples": 1200 if tier == "quick" else 10000}
 
 
 def essential_labels(tier):
